@@ -81,6 +81,9 @@ pub fn disk_files(c: &Case) -> BTreeMap<String, String> {
     let h = crate::engine::hash_of(&c.entropy);
     let extra = match if proj.main_text().contains(".define segment") { 9 } else { h % 5 } {
         0 => ".segment \"default\" {\n    .segment \"default\" {\n        nop\n    }\n    rts\n}\n",
+        // a branch that is not taken, in which `super` and a name that only exists when it is taken occur (no error:
+        // `mos build` builds this)
+        1 => ".const zzsel9 = 1\n.if zzsel9 == 2 {\n    {\n        .byte super.zzsel9\n    }\n    lda zzonlythen\n}\n",
         _ => "",
     };
     let main = format!("{}.import * as lib from \"lib.asm\"\n    lda lib.libval\n/// documented\ndoc1: nop\n    jmp doc1\n.test \"t1\" {{ brk }}\n{}", proj.main_text(), extra);
@@ -720,7 +723,10 @@ pub fn run_raw(raw: &Raw, log: &mut CaseLog) -> Verdict {
             }
         }
     }
-    let describe = |what: &str| format!("{}\nhistory:\n{}\nfinal open buffers: {:?}", what, trace.join("\n"), buffers);
+    let describe = |what: &str| {
+        let on_disk: String = disk.iter().map(|(n, t)| format!("--- {} (on disk) ---\n{}\n", n, t)).collect();
+        format!("{}\nhistory:\n{}\nfinal open buffers: {:?}\n{}", what, trace.join("\n"), buffers, on_disk)
+    };
     // diagnostics
     if fresh[0].1 == fresh[1].1 {
         if final_diags != fresh[0].1 {
